@@ -28,6 +28,7 @@ type vBehav struct {
 	ignoreTerm bool     // only SIGKILL ends it
 	startErr   bool     // Start() fails
 	lines      []string // stdout lines of every attempt
+	errLines   []string // stderr lines of every attempt
 	dieSecs    int      // after the signal that ends it the command needs that many seconds to exit
 	runSecs    int      // a command that ends by itself first runs for that many seconds
 	latency    int      // 0: exits/dies as soon as it is scheduled; 1: only when nothing else can run; 2: both (choice)
@@ -52,6 +53,7 @@ type vWorld struct {
 	onExit   func(name string, code int)
 	started  chan string // every successful Start is announced here (buffered)
 	stopLog  []vStopRec
+	live     map[string]*vCmd // the live command of a process (by name)
 }
 
 type vStopRec struct {
@@ -80,7 +82,7 @@ func vAt(proc string) string {
 func vInit() *vWorld {
 	vW = &vWorld{behav: map[string]*vBehav{}, behavKey: map[string]*vBehav{}, alive: map[string]int{}, aliveKey: map[string]int{}, startKey: map[string]int{}, starts: map[string]int{}, exits: map[string]int{},
 		stops: map[string]int{}, lastCode: map[string]int{}, byStop: map[string]bool{}, startEnv: map[string][]string{},
-		startDir: map[string]string{}, started: make(chan string, 64)}
+		startDir: map[string]string{}, started: make(chan string, 64), live: map[string]*vCmd{}}
 	VerifCommanderHook = func(p *Process) command.Commander { return vNewCmd(p) }
 	vLastYield = map[string]string{}
 	VerifYieldHook = func(proc, label string) {
@@ -91,6 +93,7 @@ func vInit() *vWorld {
 	}
 	VerifStateHook = nil
 	vLineServed = nil
+	vStderrReaderLast = false
 	return vW
 }
 
@@ -133,6 +136,7 @@ type vCmd struct {
 	env     []string
 	dir     string
 	started bool
+	killed  bool // died by itself (crash) while it was meant to run on: exit code from the script
 	pipes   []*vPipe
 }
 
@@ -161,6 +165,7 @@ func (c *vCmd) Start() error {
 	n := w.alive[c.name]
 	w.startEnv[c.name] = c.env
 	w.startDir[c.name] = c.dir
+	w.live[c.name] = c
 	w.mu.Unlock()
 	verifEvent("start " + c.id())
 	if n > 1 {
@@ -221,6 +226,9 @@ func (c *vCmd) life() {
 		default:
 		}
 	}
+	if c.killed {
+		byStop = false
+	}
 	if byStop {
 		c.code = -1
 	} else {
@@ -274,7 +282,22 @@ func (c *vCmd) StdoutPipe() (io.ReadCloser, error) {
 	p := &vPipe{cmd: c, lines: vW.bc(c).lines}
 	return p, nil
 }
-func (c *vCmd) StderrPipe() (io.ReadCloser, error) { return &vPipe{cmd: c}, nil }
+func (c *vCmd) StderrPipe() (io.ReadCloser, error) {
+	return &vPipe{cmd: c, lines: vW.bc(c).errLines, isErr: true}, nil
+}
+
+// vCrash: the live command of a process dies by itself (it was scripted to run until stopped);
+// its exit code is the scripted one
+func vCrash(name string) {
+	vW.mu.Lock()
+	c := vW.live[name]
+	vW.mu.Unlock()
+	if c == nil || !c.started {
+		return
+	}
+	c.killed = true
+	c.sigOnce.Do(func() { close(c.stopCh) })
+}
 func (c *vCmd) StdinPipe() (io.WriteCloser, error) { return nil, nil }
 
 // vPipe: scripted output, EOF when the child has exited. ReadString serves symgo (bufio is
@@ -284,9 +307,14 @@ type vPipe struct {
 	pos   int
 	cmd   *vCmd
 	buf   []byte
+	isErr bool
 }
 
 func (p *vPipe) Close() error { return nil }
+// vStderrReaderLast: the goroutine that reads a scripted stderr is scheduled only when nothing
+// else can run (a legal schedule: the reader is merely slow)
+var vStderrReaderLast bool
+
 // vLineServed is told about every stdout line handed to the supervisor (ground truth)
 var vLineServed func(name, line string)
 
@@ -297,6 +325,12 @@ func (p *vPipe) serve(line string) {
 }
 
 func (p *vPipe) ReadString(d byte) (string, error) {
+	if p.isErr && len(p.lines) > 0 {
+		if vStderrReaderLast {
+			verifLazy(true) // this reader gets the processor only when nothing else can run
+		}
+		verifYield("stderr.read:" + p.cmd.name) // the reader of a scripted stderr may be slow
+	}
 	if p.pos < len(p.lines) {
 		s := p.lines[p.pos]
 		p.pos++
@@ -307,6 +341,12 @@ func (p *vPipe) ReadString(d byte) (string, error) {
 	return "", io.EOF
 }
 func (p *vPipe) Read(b []byte) (int, error) {
+	if p.isErr && len(p.lines) > 0 && len(p.buf) == 0 {
+		if vStderrReaderLast {
+			verifLazy(true)
+		}
+		verifYield("stderr.read:" + p.cmd.name)
+	}
 	for len(p.buf) == 0 {
 		if p.pos < len(p.lines) {
 			p.buf = []byte(p.lines[p.pos] + "\n")
